@@ -15,6 +15,7 @@
 
 mod bag;
 mod conc;
+mod real;
 mod reg;
 
 use std::io::Write;
@@ -666,6 +667,10 @@ fn main() {
     let args = Args::parse();
     if args.ops.is_none() && args.positional.iter().any(|p| p == "--conc") {
         conc::main(&args);
+        return;
+    }
+    if args.ops.is_none() && args.positional.iter().any(|p| p == "--real") {
+        real::main(&args);
         return;
     }
     let mut out = args.writer();
